@@ -193,6 +193,13 @@ def check(res):
                         out.append(V("subscriber-got-event-without-its-descriptor", f"a subscriber registered after the failing one received event {str(e.d['uid'])[:8]} but never the descriptor {str(want)[:8]} it refers to"))
                         break
         return out
+    # every illegal step of these plans sits inside a handler of the plan: whatever the schedule, no call ends with
+    # the engine refusing a message sequence (e.g. a replay that opens a bundle twice because the failed 'save' that
+    # closed it the first time is not part of the replay)
+    for c_ in inv.calls:
+        if c_.end is not None and c_.outcome == "raise" and c_.exc == "IllegalMessageSequence":
+            out.append(V("call-ended-with-illegal-sequence", f"{c_.api} raised IllegalMessageSequence: {c_.end.d['text'][:160]}", api=c_.api))
+            return out
     msgs = {}  # mid -> most recent 'msg' event (a replayed message is handed over again)
     specs = res.case["devices"]
 
